@@ -63,5 +63,10 @@ func VerifMultiFetch() {
 		for i := 0; i < n; i++ {
 			vrt.Assert("C10.every-entry-is-populated-when-the-fetch-succeeds", fetched[i] && len(eb.Entries[i].Content) == 1)
 		}
+		// C01: the entries come back in entry-block order whatever order the requests completed in
+		vrt.Assert("C01.fetched-entries-keep-chain-order", len(eb.Entries) == n)
+		for i := 0; i < n && i < len(eb.Entries); i++ {
+			vrt.Assert("C01.fetched-entries-keep-chain-order", eb.Entries[i].Hash != nil && int(eb.Entries[i].Hash[31]) == 0x20+i && len(eb.Entries[i].Content) == 1 && int(eb.Entries[i].Content[0]) == i+1)
+		}
 	}
 }
